@@ -1018,4 +1018,172 @@ theorem allSim (hE : EndAt s K) : ∀ n, AllSim s K n
   | 0 => allSim_zero
   | n + 1 => allSim_succ hE (allSim hE n)
 
+
+/-! ### the program loop and `parseProgram` -/
+
+/-- `hclosed`: no top-level statement of the file-mode run ends with the end marker as its current token
+(`idx < K + 2` at the exit of every `parseStatement` call of `ParseProgram`'s loop).  A block loop that stops on EOF
+instead of `}` makes the end marker current, and the position never goes back, so this excludes the recorded class
+`file-mode-accepts-unclosed-block` — and nothing else that is accepted by file mode without error. -/
+def stmtsClosed (s : TokStream) (K : Nat) : Nat → PState → Bool
+  | 0, _ => true
+  | n + 1, st =>
+    if st.cur.type != .EOF && st.cur.type != .EOL then
+      match parseStatement s n st with
+      | .ok (none, st1) => decide (st1.idx < K + 2)
+      | .ok (some _, st1) => decide (st1.idx < K + 2) && stmtsClosed s K n (advance s st1)
+      | _ => true
+    else true
+
+theorem wp_iff (m : PM α) (Q : α → PState → Prop) (st : PState) : wp m Q st ↔ ∀ a st', m st = .ok (a, st') → Q a st' := by
+  unfold wp
+  cases m st with
+  | ok r => obtain ⟨a, st'⟩ := r; exact ⟨fun h _ _ e => (by cases e; exact h), fun h => h _ _ rfl⟩
+  | goPanic p => exact ⟨fun _ _ _ e => (by cases e), fun _ => trivial⟩
+  | outOfFuel => exact ⟨fun _ _ _ e => (by cases e), fun _ => trivial⟩
+
+theorem parseProgramLoop_sim (hE : EndAt s K) : ∀ (n : Nat) (acc : NList) (st : PState), Inv s st →
+    stmtsClosed s K n st = true →
+    wp (parseProgramLoop s n acc)
+      (fun prog stf => D stf ∨ parseProgramLoop (asLine s) n acc (lineSt st) = .ok (prog, lineSt stf)) st
+  | 0, _, _, _, _ => by unfold parseProgramLoop; trivial
+  | n + 1, acc, st, hi, hcl => by
+    rcases lineTok_type_cases st.cur with ⟨h1, h2⟩ | ⟨h1, hc⟩
+    · unfold parseProgramLoop
+      simp only [wp_bind, wp_getSt, wp_ite, wp_pure, app_bind_getSt, app_ite, app_pure, lineSt_cur, h1, h2, bne_self_eq_false,
+        Bool.false_and, Bool.and_false, Bool.false_eq_true, ↓reduceIte, or_true]
+    · unfold parseProgramLoop
+      unfold stmtsClosed at hcl
+      sv
+      split
+      · rename_i hcond
+        have hcond' : (st.cur.type != TokType.EOF && st.cur.type != TokType.EOL) = true := by
+          simp only [Bool.and_eq_true, bne_iff_ne, ne_eq]; exact ⟨h1, hcond⟩
+        rw [if_pos hcond'] at hcl
+        rw [wp_iff]
+        intro stmt st1 hp
+        rw [hp] at hcl
+        have hst := (allSim hE n).pStmt st hi
+        rw [wp_iff] at hst
+        obtain ⟨hi1, hbs⟩ := hst _ _ hp
+        cases stmt with
+        | none =>
+          simp only [decide_eq_true_eq] at hcl
+          sv
+          rcases hbs with (hd | hk) | hs
+          · exact Or.inl hd
+          · omega
+          · right; simp only [app_bind_of_eq hs, app_pure]
+        | some x =>
+          simp only [Bool.and_eq_true, decide_eq_true_eq] at hcl
+          sv
+          rcases hbs with (hd | hk) | hs
+          · refine wp_conseq (parseProgramLoop_spec s n _ (advance s st1) (Or.inl ((D_advance s st1).mpr hd))) ?_
+            intro r st' h
+            exact Or.inl (h.1 ((D_advance s st1).mpr hd))
+          · omega
+          · simp only [app_bind_of_eq hs, app_bind_nextToken, advance_lineSt]
+            exact parseProgramLoop_sim hE n _ _ (inv_adv hi1) hcl.2
+      · sv
+
+/-- the two-run simulation for `parseProgram`: an outcome of the file-mode run without error and without continuation
+request is the outcome of the line-mode run -/
+theorem parseProgram_sim (hE : EndAt s K) (fuel : Nat) (hcl : stmtsClosed s K fuel (init s) = true) (r : ParseResult)
+    (h : parseProgram s fuel = .ok r) (he : r.errors = 0) (hc : r.cont = false) : parseProgram (asLine s) fuel = .ok r := by
+  have hs := parseProgramLoop_sim hE fuel [] (init s) (inv_init s) hcl
+  rw [wp_iff] at hs
+  unfold parseProgram at h ⊢
+  cases hp : parseProgramLoop s fuel [] (init s) with
+  | goPanic p => rw [hp] at h; cases h
+  | outOfFuel => rw [hp] at h; cases h
+  | ok res =>
+    obtain ⟨prog, stf⟩ := res
+    rw [hp] at h
+    simp only [Res.ok.injEq] at h
+    subst h
+    simp only at he hc
+    rcases hs _ _ hp with hd | hl
+    · exfalso
+      rcases hd with hd | hd
+      · exact hd (List.length_eq_zero_iff.mp he)
+      · rw [hc] at hd; cases hd
+    · rw [init_asLine, hl]
+      rfl
+
+/-- executable form of `EndAt` -/
+def endAtB (s : TokStream) (K : Nat) : Bool :=
+  (List.range K).all (fun i => (s.get i).type != .EOF) && decide (s.eof.type = .EOF) &&
+  (List.range (s.toks.length + 1 - K)).all (fun d => decide ((s.get (K + d)).type = .EOF))
+
+theorem endAt_of_b (h : endAtB s K = true) : EndAt s K := by
+  unfold endAtB at h
+  simp only [Bool.and_eq_true, List.all_eq_true, List.mem_range, bne_iff_ne, ne_eq, decide_eq_true_eq] at h
+  obtain ⟨⟨h1, h2⟩, h3⟩ := h
+  refine ⟨h1, fun i hi => ?_⟩
+  by_cases hl : s.toks.length ≤ i
+  · rw [get_of_le s hl]; exact h2
+  · have := h3 (i - K) (by omega)
+    have e : K + (i - K) = i := by omega
+    rw [e] at this; exact this
+
 end Grol.Parser
+
+namespace Grol.C15
+open Grol Grol.Wire Grol.Parser Grol.Generated
+
+/-- C15 part 1 at the token-stream level, as a two-run simulation.  `s` is the stream of file mode with its first end
+marker at `K` and nothing but end markers after it (`endAtB`: no embedded NUL); `asLine s` is the stream of line mode.
+`hclosed` = `stmtsClosed`: no top-level statement of the file-mode run ends with the end marker as its current token —
+this excludes exactly the recorded class `file-mode-accepts-unclosed-block` (see `excluded_class`).  No assumption on
+the fuel and none on the lexer facts `StreamWF`. -/
+theorem same_tree_partial (s : TokStream) (K fuel : Nat) (hend : endAtB s K = true) (hv : valid s fuel = true)
+    (hclosed : stmtsClosed s K fuel (init s) = true) :
+    valid (asLine s) fuel = true ∧ (result (asLine s) fuel).map (·.program) = (result s fuel).map (·.program) := by
+  unfold valid result at hv
+  cases hp : parseProgram s fuel with
+  | goPanic p => rw [hp] at hv; cases hv
+  | outOfFuel => rw [hp] at hv; cases hv
+  | ok r =>
+    rw [hp] at hv
+    simp only [Bool.and_eq_true, beq_iff_eq, Bool.not_eq_true'] at hv
+    have hl := parseProgram_sim (endAt_of_b hend) fuel hclosed r hp hv.1 hv.2
+    unfold valid result
+    rw [hl, hp]
+    simp only [Bool.and_eq_true, beq_iff_eq, Bool.not_eq_true']
+    refine ⟨hv, ?_⟩
+    first | rfl | trivial
+
+/-- the full token-level statement of part 1 (no `hclosed`): FALSE of the code, `witness_file_mode_accepts_unclosed_block` -/
+def SameTreeTokStatement : Prop :=
+  ∀ (s : TokStream) (K fuel : Nat), endAtB s K = true → valid s fuel = true →
+    valid (asLine s) fuel = true ∧ (result (asLine s) fuel).map (·.program) = (result s fuel).map (·.program)
+
+/-! non-vacuity: streams of the real lexer (file mode) that meet the hypotheses, and their line-mode image -/
+
+/-- `if x { y } else { z }` followed by `f(1)`: closed blocks, a call — 15 tokens -/
+def closedBlocks : TokStream :=
+  { toks := [
+    { type := .IF, lit := [105, 102] }, { type := .IDENT, lit := [120], hadWs := true }, { type := .LBRACE, lit := [123], hadWs := true },
+    { type := .IDENT, lit := [121], hadWs := true }, { type := .RBRACE, lit := [125], hadWs := true },
+    { type := .ELSE, lit := [101, 108, 115, 101], hadWs := true }, { type := .LBRACE, lit := [123], hadWs := true },
+    { type := .IDENT, lit := [122], hadWs := true }, { type := .RBRACE, lit := [125], hadWs := true },
+    { type := .IDENT, lit := [102], hadWs := true, hadNl := true }, { type := .LPAREN, lit := [40] },
+    { type := .INT, lit := [49], num := .int }, { type := .RPAREN, lit := [41] },
+    { type := .EOF, lit := [] } ],
+    eof := { type := .EOF, lit := [] }, inputLen := 30 }
+
+example : endAtB closedBlocks 13 = true ∧ valid closedBlocks 40 = true ∧ stmtsClosed closedBlocks 13 40 (init closedBlocks) = true ∧
+    (result closedBlocks 40).map (·.program.length) = some 2 := by decide +kernel
+example : endAtB emptyParens.whole 6 = true ∧ valid emptyParens.whole 40 = true ∧
+    stmtsClosed emptyParens.whole 6 40 (init emptyParens.whole) = true := by decide +kernel
+example : endAtB unclosedString.whole 2 = true ∧ valid unclosedString.whole 40 = true ∧
+    stmtsClosed unclosedString.whole 2 40 (init unclosedString.whole) = true := by decide +kernel
+/-- `asLine` of the file-mode stream of the real lexer is the line-mode stream of the real lexer (on these inputs) -/
+example : (asLine openBlock.file).toks = openBlock.line.toks ∧ (asLine openBlock.file).eof = openBlock.line.eof ∧
+    (asLine emptyParens.file).toks = emptyParens.line.toks ∧ (asLine fakeComment.file).eof = fakeComment.line.eof := by decide +kernel
+
+/-- `hclosed` fails on the recorded class: `func(){` is accepted by file mode, its only statement ends on the end marker -/
+theorem excluded_class : endAtB openBlock.file 4 = true ∧ valid openBlock.file 40 = true ∧
+    stmtsClosed openBlock.file 4 40 (init openBlock.file) = false := by decide +kernel
+
+end Grol.C15
